@@ -82,6 +82,13 @@ class Check:
             self.parts[label] = self.parts.get(label, 0) + (
                 res_or_stats.get("states", 0) if isinstance(res_or_stats, dict) else res_or_stats.distinct)
 
+    def mark(self, label):
+        """timing breakdown for the evidence file"""
+        now = time.time()
+        last = getattr(self, "_last_mark", self.t0)
+        self.notes.setdefault("timing_s", {})[label] = round(now - last, 1)
+        self._last_mark = now
+
     def case(self, key, nontrivial=True):
         self.evaluations += 1
         if nontrivial:
